@@ -25,7 +25,7 @@ S4 the default breakpoints separate the inflection points (f'' keeps its sign in
 """
 import math
 import re
-from ..cfg import norm_facts, xrender, expand_locals, Facts, kids, strip, walk, cv, render, call_args, call_object
+from ..cfg import cond_atoms, norm_facts, xrender, expand_locals, Facts, kids, strip, walk, cv, render, call_args, call_object
 from ..cfg import short_loc as _short_loc
 from ..facts import export_many, AnalysisBroken
 
@@ -301,11 +301,28 @@ def run(rep, ctx):
         v = [x for x in f.walk() if x["k"] == "VarDecl" and x.get("declId") == ref.get("declId")]
         return kids(v[0])[0] if v and kids(v[0]) else None
 
-    def is_eval_of(f, y, xtxt):
+    def is_eval_of(f, y, xtxt, at=None):
         y = strip(y)
         if y["k"] == "BinaryOperator" and y.get("op") == "=":       # f0 = eval(x0)
             y = strip(kids(y)[1])
         if y["k"] == "DeclRefExpr":
+            # the value the variable holds at the call: an assignment `v = eval(x)` in the same straight-line block right
+            # before the call (no write to v or to x's variables in between), else its initialiser
+            did = y.get("declId")
+            pos = f.cfg.position(at) if at is not None else None
+            if pos is not None:
+                els = f.cfg.blocks[pos[0]]["el"][:pos[1]]
+                xvars = {z.get("declId") for z in walk(call_args(at)[0]) if z["k"] == "DeclRefExpr"}
+                for eid in reversed(els):
+                    n_ = f.nodes.get(eid)
+                    if n_ is None:
+                        continue
+                    if n_["k"] in ("BinaryOperator", "CompoundAssignOperator") and (n_.get("op") == "=" or n_["k"] == "CompoundAssignOperator"):
+                        t_ = strip(kids(n_)[0])
+                        if t_.get("declId") == did and n_.get("op") == "=":
+                            return is_eval_of(f, kids(n_)[1], xtxt)
+                        if t_.get("declId") in xvars or t_.get("declId") == did:
+                            return False
             init = local_init(f, y)
             if init is None:
                 return False
@@ -318,7 +335,7 @@ def run(rep, ctx):
             sites += 1
             a = call_args(c)
             xt = render(a[0]).replace(" ", "")
-            f1.check(is_eval_of(f, a[1], xt), "AddPoint|%s" % nm, short_loc(c.get("l")), "%s adds (%s, eval(%s))" % (nm, xt, xt),
+            f1.check(is_eval_of(f, a[1], xt, c), "AddPoint|%s" % nm, short_loc(c.get("l")), "%s adds (%s, eval(%s))" % (nm, xt, xt),
                      "%s adds the point (%s, %s): the ordinate is not eval of the same abscissa" % (nm, xt, render(a[1])[:50]))
     if sites < 3:
         raise AnalysisBroken("C13.F1: only %d AddPoint sites found" % sites)
@@ -361,8 +378,23 @@ def run(rep, ctx):
              any(n["k"] == "BinaryOperator" and n.get("op") == "=" and render(n).replace(" ", "") == "iSubIntv_=0" for n in isl.walk()),
              "first-point", short_loc(isl.loc), "the first point is lb_sub() of sub-interval 0")
     aps = one("ApproximateSubinterval")
-    dw = [n for n in aps.walk() if n["k"] == "DoStmt"]
-    okl = len(dw) == 1 and render(kids(dw[0])[-1]).replace(" ", "").replace("this->", "") == "x0<ub_sub()"
+    # the step loop continues exactly while x0 < ub_sub(): a do-while with that condition, or an endless loop whose last
+    # statement leaves it under the negation
+    dw = [n for n in aps.walk() if n["k"] in ("DoStmt", "ForStmt", "WhileStmt")]
+    okl = False
+    if len(dw) == 1:
+        lp_ = dw[0]
+        if lp_["k"] == "DoStmt":
+            okl = render(kids(lp_)[-1]).replace(" ", "").replace("this->", "") == "x0<ub_sub()"
+        else:
+            hdr = [x for x in lp_.get("c", [])[:-1] if x is not None]
+            endless = not hdr or all(cv(x) not in (None, 0) for x in hdr)
+            body_ = [x for x in kids([x for x in lp_.get("c", []) if x is not None][-1]) if x is not None]
+            last = body_[-1] if body_ else None
+            if endless and last is not None and last["k"] == "IfStmt" and any(x["k"] == "BreakStmt" for x in walk(last)):
+                ch_ = [x for x in last["c"] if x is not None]
+                in_then = any(x["k"] == "BreakStmt" for x in walk(ch_[1]))
+                okl = ("x0<ub_sub()", False) in [(t.replace("this->", ""), p_) for t, p_ in cond_atoms(aps, ch_[0], in_then)]
     snap = [n for n in aps.walk() if n["k"] == "BinaryOperator" and n.get("op") == "=" and render(n).replace(" ", "").replace("this->", "") == "x0=ub_sub()"]
     ap = calls(aps, "AddPoint")
     okl = okl and len(snap) == 1 and len(ap) == 1 and any(render(aps.nodes[cid]).replace(" ", "").replace("this->", "").startswith("ub_sub()-x0<") and pol is True
